@@ -7,6 +7,17 @@
 //! Records on another tape (the property's own oracle): values and every
 //! (output element, input element) derivative must agree.  Both results are printed (the
 //! model predicts both, including the tape positions).
+//! Source kinds of the containers: owned (Ten / Mat), TensorAccess (TenV), the column major
+//! interop view (MatV) and - op 8 - ANY view adaptor, type-erased (TenD / MatD over
+//! recops::DynTen / DynMat = the crate's Box<dyn TensorMut> / Box<dyn MatrixMut> plus the closure
+//! that rebuilds the adaptor, so that the by-value and in-place assign forms run on a second
+//! container with the SAME kind of source).  The element-by-element oracle reads the positions
+//! of such a view off the real adaptor applied to element identifiers.
+//! Cross-checks inside one pass (inconsistent(code)): 63/64 at_tensor vs at_tensor_index /
+//! at_matrix vs at_matrix_index; 65/67 view() vs iter_as_records vs get_as_record; 66/68
+//! constants have no derivatives; 71 derivatives_for outside the shape is None; 72-75 the
+//! AsRecords iterators (len / size_hint / fused / with_index, row and column major,
+//! try_get_as_record outside the size); map_with_index closures assert the index they receive.
 mod recops;
 
 use crate::guarded;
@@ -43,11 +54,25 @@ enum Op<T> {
     View { kind: i64, a: usize },
     FromIter { tensor: bool, shape: Vec<(usize, usize)>, colmajor: bool, e: SExpr<T>, a: usize },
     FromIters2 { e1: SExpr<T>, e2: SExpr<T>, a: usize },
+    /// generic source views (Model/ContainerViews.view_map kind params over the containers srcs)
+    Select { kind: i64, params: Vec<Vec<usize>>, srcs: Vec<usize> },
+    /// from_iters::<N> (N = es.len(); for N = 1 also from_iter) of the first `take` records
+    Collect { tensor: bool, shape: Vec<(usize, usize)>, colmajor: bool, take: usize, es: Vec<SExpr<T>>, a: usize },
+}
+
+impl<T> Op<T> {
+    fn outputs(&self) -> usize {
+        match self {
+            Op::FromIters2 { .. } => 2,
+            Op::Collect { es, .. } => es.len(),
+            _ => 1,
+        }
+    }
 }
 
 enum Status<A> {
     Ok(A),
-    Err(i64),
+    Err(Sx),
     Panic,
 }
 
@@ -105,6 +130,19 @@ fn dec_op<T: Enc>(s: &Sx, d: usize) -> Option<Op<T>> {
         }
         (6, 4) => Op::FromIters2 { e1: dec_sexpr(&v[1], 12)?, e2: dec_sexpr(&v[2], 12)?, a: v[3].usize()? },
         (7, 3) => Op::View { kind: v[1].usize()? as i64, a: v[2].usize()? },
+        (8, 4) => Op::Select {
+            kind: v[1].usize()? as i64,
+            params: v[2].list()?.iter().map(|p| p.usizes()).collect::<Option<Vec<Vec<usize>>>>()?,
+            srcs: v[3].usizes()?,
+        },
+        (9, 7) => {
+            let (tensor, shape, colmajor, take, a) = (v[1].bool()?, v[2].pairs_usize()?, v[3].bool()?, v[4].usize()?, v[6].usize()?);
+            let es = v[5].list()?.iter().map(|e| dec_sexpr(e, 12)).collect::<Option<Vec<SExpr<T>>>>()?;
+            if (tensor && shape.len() != d) || es.len() > 4 {
+                return None;
+            }
+            Op::Collect { tensor, shape, colmajor, take, es, a }
+        }
         _ => return None,
     })
 }
@@ -137,13 +175,38 @@ fn shape_valid(sh: &[(usize, usize)], len: usize) -> bool {
 }
 
 // ------------------------------------------------------------------ the container run
-enum CObj<'a, T: Primitive, const D: usize> {
+enum CObj<'a, T: Primitive + 'static, const D: usize> {
     Ten(Ten<'a, T, D>),
     Mat(Mat<'a, T>),
     /// source: TensorAccess with the dimension order reversed
     TenV(TenV<'a, T, D>),
     /// source: column major interop view (MatrixRefTensor of a transposed TensorAccess)
     MatV(MatV<'a, T>),
+    /// source: any type-erased tensor view adaptor over copies of other containers' elements
+    TenD(TenD<'a, T, D>),
+    /// source: any type-erased matrix view adaptor
+    MatD(MatD<'a, T>),
+}
+
+impl<'a, T: Primitive + 'static, const D: usize> CObj<'a, T, D> {
+    fn history(&self) -> Option<&'a WengertList<T>> {
+        match self {
+            CObj::Ten(c) => c.history(),
+            CObj::Mat(c) => c.history(),
+            CObj::TenV(c) => c.history(),
+            CObj::MatV(c) => c.history(),
+            CObj::TenD(c) => c.history(),
+            CObj::MatD(c) => c.history(),
+        }
+    }
+}
+
+fn same_history<T>(a: Option<&WengertList<T>>, b: Option<&WengertList<T>>) -> bool {
+    match (a, b) {
+        (None, None) => true,
+        (Some(x), Some(y)) => std::ptr::eq(x, y),
+        _ => false,
+    }
 }
 
 /// run `$body` with `$x` bound to the record tensor inside `$o`, whatever its source kind
@@ -152,6 +215,7 @@ macro_rules! on_ten {
         match $o {
             CObj::Ten($x) => Some($body),
             CObj::TenV($x) => Some($body),
+            CObj::TenD($x) => Some($body),
             _ => None,
         }
     };
@@ -161,6 +225,7 @@ macro_rules! on_mat {
         match $o {
             CObj::Mat($x) => Some($body),
             CObj::MatV($x) => Some($body),
+            CObj::MatD($x) => Some($body),
             _ => None,
         }
     };
@@ -229,7 +294,7 @@ where
     let mut env: Vec<CObj<'a, T, D>> = Vec::new();
     for (n, op) in ops.iter().enumerate() {
         // Some(Some(Ok(objs))) | Some(Some(Err(code))) | Some(None) panic | None bad
-        let r: Option<Result<Vec<CObj<'a, T, D>>, i64>> = match op {
+        let r: Option<Result<Vec<CObj<'a, T, D>>, Sx>> = match op {
             Op::Decl { tensor, var, shape, data } => {
                 if !shape_valid(shape, data.len()) || (!*tensor && shape.len() != 2) {
                     return None;
@@ -286,42 +351,67 @@ where
                 let indexed = uses_index(e) || form % 2 == 1;
                 let o = env.get(*a)?;
                 if let Some(r) = on_ten!(o, x => guarded(|| {
+                    let sh = x.shape();
+                    let lens: [usize; D] = std::array::from_fn(|i| sh[i].1);
+                    let calls = std::cell::Cell::new(0usize);
+                    let expect = |i: [usize; D]| {
+                        assert!(i == multi_index(&lens, calls.get()), "EASYML-VERIF map_with_index: wrong index");
+                        calls.set(calls.get() + 1);
+                    };
                     let r = if *mutating {
                         let mut y = x.dup();
                         let r = if indexed {
-                            y.map_mut_with_index(|i, r| eval::<T>(e, &r, i.iter().all(|k| *k == 0), form, other))
+                            y.map_mut_with_index(|i, r| {
+                                expect(i);
+                                eval::<T>(e, &r, i.iter().all(|k| *k == 0), form, other)
+                            })
                         } else {
                             y.map_mut(|r| eval::<T>(e, &r, false, form, other))
                         };
                         r.map(|_| ten_owned(&y))
                     } else if indexed {
-                        x.map_with_index(|i, r| eval::<T>(e, &r, i.iter().all(|k| *k == 0), form, other))
+                        x.map_with_index(|i, r| {
+                            expect(i);
+                            eval::<T>(e, &r, i.iter().all(|k| *k == 0), form, other)
+                        })
                     } else {
                         x.map(|r| eval::<T>(e, &r, false, form, other))
                     };
                     match r {
                         Ok(y) => Ok(vec![CObj::Ten(y)]),
-                        Err(_) => Err(0),
+                        Err(_) => Err(z(0)),
                     }
                 })) {
                     r
                 } else if let Some(r) = on_mat!(o, x => guarded(|| {
+                    let cols = x.columns();
+                    let calls = std::cell::Cell::new(0usize);
+                    let expect = |i: usize, j: usize| {
+                        assert!((i, j) == (calls.get() / cols, calls.get() % cols), "EASYML-VERIF map_with_index: wrong index");
+                        calls.set(calls.get() + 1);
+                    };
                     let r = if *mutating {
                         let mut y = x.dup();
                         let r = if indexed {
-                            y.map_mut_with_index(|r, i, j| eval::<T>(e, &r, i == 0 && j == 0, form, other))
+                            y.map_mut_with_index(|r, i, j| {
+                                expect(i, j);
+                                eval::<T>(e, &r, i == 0 && j == 0, form, other)
+                            })
                         } else {
                             y.map_mut(|r| eval::<T>(e, &r, false, form, other))
                         };
                         r.map(|_| mat_owned(&y))
                     } else if indexed {
-                        x.map_with_index(|r, i, j| eval::<T>(e, &r, i == 0 && j == 0, form, other))
+                        x.map_with_index(|r, i, j| {
+                            expect(i, j);
+                            eval::<T>(e, &r, i == 0 && j == 0, form, other)
+                        })
                     } else {
                         x.map(|r| eval::<T>(e, &r, false, form, other))
                     };
                     match r {
                         Ok(y) => Ok(vec![CObj::Mat(y)]),
-                        Err(_) => Err(0),
+                        Err(_) => Err(z(0)),
                     }
                 })) {
                     r
@@ -331,7 +421,7 @@ where
             }
             Op::FromIter { tensor, shape, colmajor, e, a } => {
                 let src = env.get(*a)?;
-                if (*colmajor && matches!(src, CObj::Ten(_) | CObj::TenV(_))) || (!*tensor && shape.len() != 2) {
+                if (*colmajor && matches!(src, CObj::Ten(_) | CObj::TenV(_) | CObj::TenD(_))) || (!*tensor && shape.len() != 2) {
                     return None;
                 }
                 guarded(|| {
@@ -347,12 +437,12 @@ where
                             if *tensor {
                                 match RecordTensor::from_iter(shape_arr::<D>(shape), $iter) {
                                     Ok(y) => Ok(vec![CObj::Ten(y)]),
-                                    Err(e) => Err(iter_err(e)),
+                                    Err(e) => Err(z(iter_err(e))),
                                 }
                             } else {
                                 match RecordMatrix::from_iter((shape[0].1, shape[1].1), $iter) {
                                     Ok(y) => Ok(vec![CObj::Mat(y)]),
-                                    Err(e) => Err(iter_err(e)),
+                                    Err(e) => Err(z(iter_err(e))),
                                 }
                             }
                         };
@@ -385,8 +475,8 @@ where
                     );
                     match (r1, r2) {
                         (Ok(y1), Ok(y2)) => Ok(vec![CObj::Ten(y1), CObj::Ten(y2)]),
-                        (Err(e), _) => Err(iter_err(e)),
-                        (_, Err(e)) => Err(iter_err(e)),
+                        (Err(e), _) => Err(z(iter_err(e))),
+                        (_, Err(e)) => Err(z(iter_err(e))),
                     }
                 })) {
                     r
@@ -403,8 +493,8 @@ where
                         );
                         match (r1, r2) {
                             (Ok(y1), Ok(y2)) => Ok(vec![CObj::Mat(y1), CObj::Mat(y2)]),
-                            (Err(e), _) => Err(iter_err(e)),
-                            (_, Err(e)) => Err(iter_err(e)),
+                            (Err(e), _) => Err(z(iter_err(e))),
+                            (_, Err(e)) => Err(z(iter_err(e))),
                         }
                     }))
                     .unwrap()
@@ -450,6 +540,65 @@ where
                     _ => return None,
                 }
             }
+            Op::Select { kind, params, srcs } => {
+                let objs: Vec<&CObj<'a, T, D>> = srcs.iter().map(|&k| env.get(k)).collect::<Option<Vec<_>>>()?;
+                let first = *objs.first()?;
+                let hist = first.history();
+                if objs.iter().any(|o| !same_history(o.history(), hist)) {
+                    return None;
+                }
+                if on_ten!(first, _x => ()).is_some() {
+                    let bases: Vec<Tensor<(T, Index), D>> = objs
+                        .iter()
+                        .map(|o| on_ten!(o, x => Tensor::from(x.shape(), x.view().iter().collect())))
+                        .collect::<Option<Vec<_>>>()?;
+                    build_tensor_view::<(T, Index), D>(*kind, params, &bases)?;
+                    let (k, p) = (*kind, params.clone());
+                    let rebuild: RebuildT<(T, Index), D> =
+                        std::rc::Rc::new(move || build_tensor_view::<(T, Index), D>(k, &p, &bases).expect("view"));
+                    Some(Ok(vec![CObj::TenD(RecordTensor::from_existing(hist, TensorView::from(DynTen::new(rebuild))))]))
+                } else {
+                    let bases: Vec<Matrix<(T, Index)>> = objs
+                        .iter()
+                        .map(|o| on_mat!(o, x => Matrix::from_flat_row_major((x.rows(), x.columns()), x.view().row_major_iter().collect())))
+                        .collect::<Option<Vec<_>>>()?;
+                    build_matrix_view::<(T, Index)>(*kind, params, &bases)?;
+                    let (k, p) = (*kind, params.clone());
+                    let rebuild: RebuildM<(T, Index)> =
+                        std::rc::Rc::new(move || build_matrix_view::<(T, Index)>(k, &p, &bases).expect("view"));
+                    Some(Ok(vec![CObj::MatD(RecordMatrix::from_existing(
+                        hist,
+                        easy_ml::matrices::views::MatrixView::from(DynMat::new(rebuild)),
+                    ))]))
+                }
+            }
+            Op::Collect { tensor, shape, colmajor, take, es, a } => {
+                let src = env.get(*a)?;
+                let src_tensor = on_ten!(src, _x => ()).is_some();
+                if (*colmajor && src_tensor) || (!*tensor && shape.len() != 2) || es.is_empty() || es.len() > 4 {
+                    return None;
+                }
+                guarded(|| {
+                    let mut go = |recs: &mut dyn Iterator<Item = Record<'a, T>>| match es.len() {
+                        1 => run_collect::<T, D, 1>(*tensor, shape, *take, es, form, other, recs),
+                        2 => run_collect::<T, D, 2>(*tensor, shape, *take, es, form, other, recs),
+                        3 => run_collect::<T, D, 3>(*tensor, shape, *take, es, form, other, recs),
+                        _ => run_collect::<T, D, 4>(*tensor, shape, *take, es, form, other, recs),
+                    };
+                    if let Some(r) = on_ten!(src, x => go(&mut x.iter_as_records())) {
+                        r
+                    } else {
+                        on_mat!(src, x => {
+                            if *colmajor {
+                                go(&mut x.iter_column_major_as_records())
+                            } else {
+                                go(&mut x.iter_row_major_as_records())
+                            }
+                        })
+                        .unwrap()
+                    }
+                })
+            }
         };
         match r {
             None => return Some((n, Status::Panic)),
@@ -457,13 +606,7 @@ where
             Some(Ok(objs)) => {
                 // a container collected on the foreign list is outside the case language
                 for o in &objs {
-                    let h = match o {
-                        CObj::Ten(c) => c.history(),
-                        CObj::Mat(c) => c.history(),
-                        CObj::TenV(c) => c.history(),
-                        CObj::MatV(c) => c.history(),
-                    };
-                    if let Some(h) = h {
+                    if let Some(h) = o.history() {
                         if !std::ptr::eq(h, list) {
                             return None;
                         }
@@ -474,6 +617,56 @@ where
         }
     }
     Some((ops.len(), Status::Ok(env)))
+}
+
+/// from_iters::<N> over the first `take` records, closure k producing output k (for N = 1 the
+/// odd forms use from_iter instead: both must agree); every failing output is reported
+fn run_collect<'a, T: Real + Primitive + Clone + 'static, const D: usize, const N: usize>(
+    tensor: bool,
+    shape: &[(usize, usize)],
+    take: usize,
+    es: &[SExpr<T>],
+    form: usize,
+    other: &Record<'a, T>,
+    recs: &mut dyn Iterator<Item = Record<'a, T>>,
+) -> Result<Vec<CObj<'a, T, D>>, Sx>
+where
+    for<'t> &'t T: RealRef<T>,
+{
+    let mut first = true;
+    let rows = recs.take(take).map(|r| {
+        let fl = first;
+        first = false;
+        let row: [Record<'a, T>; N] = std::array::from_fn(|k| eval::<T>(&es[k], &r, fl, form, other));
+        row
+    });
+    let single = N == 1 && form % 2 == 1;
+    let results: Vec<Result<CObj<'a, T, D>, i64>> = if tensor {
+        if single {
+            vec![RecordTensor::from_iter(shape_arr::<D>(shape), rows.map(|a| a.into_iter().next().unwrap()))
+                .map(CObj::Ten)
+                .map_err(iter_err)]
+        } else {
+            RecordTensor::from_iters::<_, N>(shape_arr::<D>(shape), rows)
+                .into_iter()
+                .map(|r| r.map(CObj::Ten).map_err(iter_err))
+                .collect()
+        }
+    } else if single {
+        vec![RecordMatrix::from_iter((shape[0].1, shape[1].1), rows.map(|a| a.into_iter().next().unwrap()))
+            .map(CObj::Mat)
+            .map_err(iter_err)]
+    } else {
+        RecordMatrix::from_iters::<_, N>((shape[0].1, shape[1].1), rows)
+            .into_iter()
+            .map(|r| r.map(CObj::Mat).map_err(iter_err))
+            .collect()
+    };
+    if results.iter().all(|r| r.is_ok()) {
+        Ok(results.into_iter().map(|r| r.ok().unwrap()).collect())
+    } else {
+        Err(l(results.iter().map(|r| z(match r { Ok(_) => 3, Err(c) => *c })).collect()))
+    }
 }
 
 fn multi_index<const D: usize>(lens: &[usize; D], mut k: usize) -> [usize; D] {
@@ -546,8 +739,28 @@ where
             owned = CObj::Mat(mat_owned(x));
             &owned
         }
+        CObj::TenD(x) => {
+            owned = CObj::Ten(ten_owned(x));
+            &owned
+        }
+        CObj::MatD(x) => {
+            owned = CObj::Mat(mat_owned(x));
+            &owned
+        }
         other => other,
     };
+    // an index outside the shape has no derivatives (whatever the source kind)
+    let outside = match &env[o] {
+        CObj::Ten(c) => c.derivatives_for(c.shape().map(|d| d.1)).is_some(),
+        CObj::TenV(c) => c.derivatives_for(c.shape().map(|d| d.1)).is_some(),
+        CObj::TenD(c) => c.derivatives_for(c.shape().map(|d| d.1)).is_some(),
+        CObj::Mat(c) => c.derivatives_for(c.rows(), 0).is_some() || c.derivatives_for(0, c.columns()).is_some(),
+        CObj::MatV(c) => c.derivatives_for(c.rows(), 0).is_some() || c.derivatives_for(0, c.columns()).is_some(),
+        CObj::MatD(c) => c.derivatives_for(c.rows(), 0).is_some() || c.derivatives_for(0, c.columns()).is_some(),
+    };
+    if outside {
+        return Err(71);
+    }
     Ok(match target {
         CObj::Ten(c) => {
             let sh = c.shape();
@@ -556,6 +769,27 @@ where
             let recs: Vec<(T, Index)> = c.iter_as_records().map(|r| (r.number, r.index)).collect();
             if data != recs {
                 return Err(65);
+            }
+            // ExactSizeIterator / FusedIterator / with_index of the AsRecords iterator
+            {
+                let mut it = c.iter_as_records();
+                if it.len() != data.len() || it.size_hint() != (data.len(), Some(data.len())) {
+                    return Err(72);
+                }
+                for _ in 0..data.len() {
+                    it.next();
+                }
+                if it.len() != 0 || it.next().is_some() || it.next().is_some() {
+                    return Err(72);
+                }
+                let indexed: Vec<([usize; D], (T, Index))> =
+                    c.iter_as_records().with_index().map(|(i, r)| (i, (r.number, r.index))).collect();
+                if indexed.len() != data.len()
+                    || indexed.iter().enumerate().any(|(k, (i, p))| *i != multi_index(&lens, k) || *p != data[k])
+                    || c.iter_as_records().with_index().len() != data.len()
+                {
+                    return Err(73);
+                }
             }
             let derivs = match c.history() {
                 None => {
@@ -596,6 +830,34 @@ where
                 .collect();
             if data != recs || data != single {
                 return Err(67);
+            }
+            {
+                let mut it = c.iter_row_major_as_records();
+                let mut itc = c.iter_column_major_as_records();
+                if it.len() != data.len() || itc.len() != data.len() || it.size_hint() != (data.len(), Some(data.len())) {
+                    return Err(74);
+                }
+                for _ in 0..data.len() {
+                    it.next();
+                    itc.next();
+                }
+                if it.len() != 0 || it.next().is_some() || itc.next().is_some() || itc.next().is_some() {
+                    return Err(74);
+                }
+                let rows = c.rows();
+                let indexed: Vec<((usize, usize), (T, Index))> =
+                    c.iter_row_major_as_records().with_index().map(|(i, r)| (i, (r.number, r.index))).collect();
+                let cindexed: Vec<((usize, usize), (T, Index))> =
+                    c.iter_column_major_as_records().with_index().map(|(i, r)| (i, (r.number, r.index))).collect();
+                if indexed.len() != data.len()
+                    || indexed.iter().enumerate().any(|(k, (i, p))| *i != (k / cols, k % cols) || *p != data[k])
+                    || cindexed.len() != data.len()
+                    || cindexed.iter().enumerate().any(|(k, (i, p))| *i != (k % rows, k / rows) || *p != data[(k % rows) * cols + k / rows])
+                    || c.try_get_as_record(rows, 0).is_some()
+                    || c.try_get_as_record(0, cols).is_some()
+                {
+                    return Err(75);
+                }
             }
             let derivs = match c.history() {
                 None => {
@@ -643,7 +905,7 @@ fn same_shape(tensor: bool, a: &[(usize, usize)], b: &[(usize, usize)]) -> bool 
     a.len() == b.len() && a.iter().zip(b).all(|(p, q)| (!tensor || p.0 == q.0) && p.1 == q.1)
 }
 
-fn e_pass<'a, T: Real + Primitive + Clone + PartialEq + 'static>(
+fn e_pass<'a, T: Real + Primitive + Clone + PartialEq + 'static, const D: usize>(
     list: &'a WengertList<T>,
     other: &Record<'a, T>,
     ops: &[Op<T>],
@@ -759,6 +1021,53 @@ where
                     }]),
                 }
             }
+            Op::Select { kind, params, srcs } => {
+                // the positions are read off the REAL adaptor applied to element identifiers
+                let objs: Vec<&EObj<'a, T>> = srcs.iter().map(|&k| env.get(k)).collect::<Option<Vec<_>>>()?;
+                let first = *objs.first()?;
+                const BASE: usize = 1 << 20;
+                let name_of = |d: &'static str| d[1..].parse::<usize>().expect("dimension name");
+                let (shape, ids): (Vec<(usize, usize)>, Vec<usize>) = if first.tensor {
+                    let bases: Vec<Tensor<usize, D>> = objs
+                        .iter()
+                        .enumerate()
+                        .map(|(k, o)| Tensor::from(shape_arr::<D>(&o.shape), (0..o.recs.len()).map(|j| k * BASE + j).collect()))
+                        .collect();
+                    let v = TensorView::from(build_tensor_view::<usize, D>(*kind, params, &bases)?);
+                    (v.shape().iter().map(|d| (name_of(d.0), d.1)).collect(), v.iter().collect())
+                } else {
+                    let bases: Vec<Matrix<usize>> = objs
+                        .iter()
+                        .enumerate()
+                        .map(|(k, o)| Matrix::from_flat_row_major((o.shape[0].1, o.shape[1].1), (0..o.recs.len()).map(|j| k * BASE + j).collect()))
+                        .collect();
+                    let v = easy_ml::matrices::views::MatrixView::from(build_matrix_view::<usize>(*kind, params, &bases)?);
+                    (vec![(0, v.rows()), (1, v.columns())], v.row_major_iter().collect())
+                };
+                Some(vec![EObj {
+                    tensor: first.tensor,
+                    shape,
+                    recs: ids.into_iter().map(|id| objs[id / BASE].recs[id % BASE].clone()).collect(),
+                }])
+            }
+            Op::Collect { tensor, shape, colmajor, take, es, a } => {
+                let x = env.get(*a)?;
+                let recs: Vec<Record<'a, T>> = if *colmajor {
+                    let (rows, cols) = (x.shape[0].1, x.shape[1].1);
+                    (0..cols).flat_map(|j| (0..rows).map(move |i| i * cols + j)).map(|k| x.recs[k].clone()).collect()
+                } else {
+                    x.recs.clone()
+                };
+                guarded(|| {
+                    let mut outs: Vec<Vec<Record<'a, T>>> = es.iter().map(|_| vec![]).collect();
+                    for (k, r) in recs.iter().take(*take).enumerate() {
+                        for (n, e) in es.iter().enumerate() {
+                            outs[n].push(eval::<T>(e, r, k == 0, 0, other));
+                        }
+                    }
+                    outs.into_iter().map(|recs| EObj { tensor: *tensor, shape: shape.clone(), recs }).collect()
+                })
+            }
             Op::FromIters2 { e1, e2, a } => {
                 let x = env.get(*a)?;
                 guarded(|| {
@@ -813,7 +1122,7 @@ fn outcome_sx<A>(n: usize, s: &Status<A>, payload: impl FnOnce(&A) -> Sx) -> Sx 
         z(n),
         match s {
             Status::Ok(a) => ok(payload(a)),
-            Status::Err(c) => err(z(*c)),
+            Status::Err(c) => err(c.clone()),
             Status::Panic => panicked(),
         },
     ])
@@ -849,6 +1158,7 @@ fn f64_ops<T: Enc>(ops: &[Op<T>]) -> Option<Vec<Op<f64>>> {
                 // position - x with itself or with a view of itself - float rounding legitimately differs)
                 Op::Binary { mode, code, a, b } if *mode != 3 => Op::Binary { mode: *mode, code: *code, a: *a, b: *b },
                 Op::View { kind, a } => Op::View { kind: *kind, a: *a },
+                Op::Select { kind, params, srcs } => Op::Select { kind: *kind, params: params.clone(), srcs: srcs.clone() },
                 _ => return None,
             })
         })
@@ -869,7 +1179,7 @@ fn f64_oracle<const D: usize>(ops: &[Op<f64>], inputs: &[usize]) -> Option<i64> 
     let list2 = WengertList::new();
     let other_list2 = WengertList::new();
     let other2 = Record::variable(1.0, &other_list2);
-    let (_, st2) = e_pass::<f64>(&list2, &other2, ops)?;
+    let (_, st2) = e_pass::<f64, D>(&list2, &other2, ops)?;
     let Status::Ok(eenv) = st2 else { return Some(620) };
     for (o, (c, e)) in cenv.iter().zip(eenv.iter()).enumerate() {
         let _ = o;
@@ -880,6 +1190,14 @@ fn f64_oracle<const D: usize>(ops: &[Op<f64>], inputs: &[usize]) -> Option<i64> 
                 &owned
             }
             CObj::MatV(x) => {
+                owned = CObj::Mat(mat_owned(x));
+                &owned
+            }
+            CObj::TenD(x) => {
+                owned = CObj::Ten(ten_owned(x));
+                &owned
+            }
+            CObj::MatD(x) => {
                 owned = CObj::Mat(mat_owned(x));
                 &owned
             }
@@ -964,8 +1282,7 @@ where
                 inputs.push(pos);
                 pos += 1
             }
-            Op::FromIters2 { .. } => pos += 2,
-            _ => pos += 1,
+            other => pos += other.outputs(),
         }
     }
     // ---- the four container passes
@@ -1013,7 +1330,7 @@ where
     let list2 = WengertList::new();
     let other_list2 = WengertList::new();
     let other2 = Record::variable(T::one(), &other_list2);
-    let Some((n2, st2)) = e_pass::<T>(&list2, &other2, &ops) else { return bad_case() };
+    let Some((n2, st2)) = e_pass::<T, D>(&list2, &other2, &ops) else { return bad_case() };
     let Status::Ok(eenv) = &st2 else { return inconsistent(610) };
     let e_items: Vec<Sx> = outs.iter().map(|&o| e_result::<T>(eenv, &inputs, o)).collect();
     // property oracle: same values, same constant-ness, same derivatives for every
